@@ -1,8 +1,9 @@
 """C37 -- received header packets are accepted, acknowledged and buffered exactly.
 
 DUT      the real luna.gateware.usb.usb3.link.receiver.HeaderPacketReceiver (with its RawHeaderPacketReceiver and
-         LinkCommandGenerator inside), `enable` held high for the whole case ("while the link stays in U0").
-Workload one case = one session of a link-partner model (rv/ref/c37_link.py, `Engine`) that respects credits and
+         LinkCommandGenerator inside), `enable` held high for the whole session ("while the link stays in U0").  The DUT
+         sits in a ResetInserter only so that one elaboration (2 s) serves 6 sessions; each starts from power-on state.
+Workload one session = a link-partner model (rv/ref/c37_link.py, `Engine`) that respects credits and
          the retry protocol of USB 3.2 ch. 7.2.4.1: it sends headers only when it holds an LCRD credit and has < 4
          unacknowledged headers, damages some on the wire (single bit in DW0-2 / CRC-16 / link control word / CRC-5 /
          sequence number, two bits, word of ones / zeros, swapped words, foreign link control word), keeps sending
@@ -28,8 +29,14 @@ Oracle   rv.ref.c37_link.RxModel, written from the statement:
              headers; afterwards nothing is accepted / answered until `retry_received`
            k-th LCRD since enable has index k mod 4; an LCRD beyond the first four may only *start* when a header
              has been consumed before (=> buffered + advertised <= 4 at all times)
-           bounded progress: at the end of the session (ready lines released) every obligation is met within 500
+           bounded progress: the advertisement is complete within 120 cycles in which source.ready was high; at the
+             end of the session (traffic stopped, ready lines released) every obligation is met within 300 such
              cycles: all LGOOD / LBAD sent, every accepted header offered, #LCRD = 4 + #consumed.
+Known finding (see findings/C37.md): a header whose HPSTART directly follows the last word of the previous header is not
+         seen by RawHeaderPacketReceiver.  Only 2 % of the sessions allow such back-to-back headers (the sink driver
+         otherwise keeps one non-framing word between headers); once one has been put on the wire the session is
+         tainted and any violation in it is reported as `header_missed_back_to_back` (the case goes on with the next
+         session).
 Not judged: recovery_required / bad_packet_received / packet_received strobes, LRTY / LUP / LXU contents and order,
          truncated headers (HPSTART inside a header is never generated), latency of anything (only order and the
          final bound), behaviour when the partner overruns its credits (never generated).
@@ -38,7 +45,7 @@ from rv.sim import Bench
 
 PROPERTY = "C37"
 CASES = {"quick": 160, "thorough": 2400}
-RULE = ("case = one link session of 1500-3500 cycles: profile (calm / lossy / bursty / backlog / hostile) x consumer ready "
+RULE = ("case = 6 link sessions (power-on reset between them) of 900-2200 cycles: profile (calm / lossy / bursty / backlog / hostile) x consumer ready "
         "profile x PHY ready profile x filler profile, 30-150 partner actions (new header good or damaged by one of 10 "
         "operators, wrong-sequence decoy, framing decoy, foreign traffic, retry after LBAD with re-sent headers, directed "
         "same-cycle patterns); non-trivial = >= 1 accepted, >= 1 corrupted and >= 1 ignored header and >= 1 retry; "
@@ -56,7 +63,8 @@ REQUIRED_EVENTS = ["cycles_monitored", "headers_on_sink", "headers_judged", "lin
 ASSUMPTIONS = ["the link partner respects credits and the retry protocol (LRTY only in answer to LBAD, then all unacknowledged headers)",
                "retry_received is pulsed >= 3 cycles after the end of the previous header and before the first re-sent header starts",
                "header framing is intact (HPSTART + four data words); only the 16 bytes behind HPSTART are damaged",
-               "latencies are not constrained; bounded progress is judged once, at the end of the session (500 cycles)"]
+               "latencies are not constrained; bounded progress is judged for the advertisement (120 PHY-ready cycles) and once at the end of the session (300 PHY-ready cycles)",
+               "98 % of the sessions keep at least one non-framing word between two header packets (back-to-back headers: known finding)"]
 
 PROFILES = {
     #            p_corrupt p_decoy p_noise p_interf gap   burst
